@@ -24,6 +24,8 @@ func main() {
 		workerMain(os.Args[2:])
 	case "one":
 		oneMain(os.Args[2:])
+	case "hashes":
+		os.Exit(hashesMain(os.Args[2:]))
 	case "runitems":
 		os.Exit(runitemsMain())
 	case "replay":
